@@ -196,6 +196,30 @@ def run(tier, seed):
         if r[0] != "ERR":
             chk.violation(f"asm:notutf8:{where}", f"a source file that is not UTF-8 (bytes {bad.hex()} in {where}, {'included file' if in_inc else 'root'}, chunks '{chunks}') was not rejected: {r[:2]}",
                           {"mode": "asm", "bad": bad.hex(), "where": where, "included": in_inc, "chunks": chunks, "impl": r[:2]})
+    # validly encoded unusual characters (byte order mark, no-break space, line separator, zero-width
+    # space …) at the start of the file, at the start of a later line, between tokens, inside a string:
+    # every one of them reaches the lexer (implementation = Model on accept/reject and bytes)
+    from . import asmdiff as A
+    ulines, umeta = [], []
+    for ch in ("\ufeff", "\u00a0", "\u2028", "\u200b", "\u3000", "\u0085", "\x0b", "\x0c"):
+        for where, text in (("file-start", ch + "@db 1\n"), ("line-start", "@db 1\n" + ch + "@db 2\n"), ("line-start-3", "@db 1\n@db 2\n" + ch + ch + "@db 3\n"),
+                            ("between", "@db 1," + ch + "2\n"), ("in-string", '@db "a' + ch + 'b"\n'), ("in-comment", "@db 1 ; " + ch + "\n@db 2\n"), ("alone", "@db 1\n" + ch + "\n@db 2\n")):
+            cid = f"u{len(ulines)}"
+            ulines.append(A.case_line(cid, "6502", {"/m.asm": text}))
+            umeta.append((cid, ch, where, text))
+    uimpl, umodel = A.run_both(ulines)
+    for cid, ch, where, text in umeta:
+        im, mo = A.parse_impl(uimpl.get(cid)), A.parse_model(umodel.get(cid))
+        chk.evaluations += 1
+        chk.distinct.add(("unusual", ch, where))
+        if not A.agree(im, mo):
+            chk.disagreements.append({"what": f"U+{ord(ch):04X} {where}", "src": text, "impl": str(im)[:160], "model": str(mo)[:160]})
+        if ch in ("\ufeff", "\u200b") and where not in ("in-string", "in-comment") and im["kind"] != "ERR":
+            chk.violation(f"asm:unusual:{where}", f"U+{ord(ch):04X} ({where}) is neither white space nor part of any token, yet the file was accepted: the character never reached the lexer ({im.get('bytes', '')})",
+                          {"mode": "asm", "source": text, "impl": {k: v for k, v in im.items() if k != 'msg'}})
+        if where == "in-string" and (im["kind"] != "OK" or im["bytes"] != ("a" + ch + "b").encode().hex()):
+            chk.violation(f"asm:unusual:{where}", f"U+{ord(ch):04X} inside a string literal did not come out as its UTF-8 bytes: {im.get('bytes', im.get('msg', ''))[:80]}",
+                          {"mode": "asm", "source": text, "impl": {k: v for k, v in im.items() if k != 'msg'}})
     chk.oblige("correspondence: CharReader = Model.CR.run on every (bytes, chunking, fault) explored",
                not chk.disagreements, json.dumps(chk.disagreements[:2])[:600])
     chk.coverage.update({"exhaustive": True,
